@@ -51,6 +51,9 @@ def check(index, ctx):
                 ones = [c for c in _pipe.evs(res, "create") if c["fn"] == "ones_like" and c["like"] == ["losses[i]"]]
                 ctx.require(bool(ones), "I", "Init: cotangent of each loss is ones", "ones_like(loss)", "task cotangent is not ones_like(loss)", "")
     idiom_rules(ctx, index, "L")
+    from .C07 import partition_rule
+
+    partition_rule(ctx, P, rs, "G")
     ctx.floor("layout sites checked", n, 40)
     _pipe.common_evidence(ctx, index)
     ctx.assumptions.append("values of vector-Jacobian products, linearity in the cotangents and chaining are properties of torch.autograd and are NOT decided")
